@@ -24,16 +24,35 @@ def run(ck):
         extra = dict(c09.ENCCFG)
         extra['store_hook'] = store_hook
         extra['call_hooks'] = {ENC + 'check_label_re_use': on_clru}
+
+        def clru_ret(I, w, frame, site, args, rv):
+            w.mem[('G', '~decided')] = rv       # the label check_label_re_use decided to send
+        extra['ret_hooks'] = {ENC + 'check_label_re_use': clru_ret}
+
+
+        def decided(W):
+            """the label check_label_re_use returned, narrowed to the kind announced in the header (the returned value is a copy:
+            later matches refine the local it was stored in, not the copy; the label type handed to generate_gse_header is
+            checked against it by the header rule below and identifies the kind in this world)"""
+            d = ghost(W, '~decided')
+            lt_ = ghost(W, 'hdr_lt')
+            if d is not None and d[0] == 'enum' and lt_ is not None and lt_[0] == 'enum' and len(lt_[1]) == 1:
+                nm = f.variant_name(LT, lt_[1][0][0])
+                keep = tuple((v, fs) for v, fs in d[1] if f.variant_name('label::Label', v) == nm)
+                if keep:
+                    return ('enum', keep)
+            return d
         a = analyse_writer(ck, ENC + wname, tag='c04', extra=extra)
         init = c09.self_fields(a, a.w0)
         last0 = init[1][c.i_last]
         act0 = init[1][c.i_act]
         label0 = a.arg('metadata')[1][i_label]
-        root_fid = [fid for fid, fr in a.I.frames.items() if fr.body is a.body and fr.ctx == ()][0]
-        label_local = [i for i, n in a.body.local_names.items() if n == 'label']
-        if not label_local:
-            raise Tooling(f"anchor lost: local `label` of {wname}")
-        label_root = ('L', root_fid, label_local[0])
+        md_contents = {fs[0][2] for _, fs in label0[1] if fs and fs[0][0] == 'arr'} if label0[0] == 'enum' else set()
+
+        def payloads(d):
+            """contents of the byte arrays the decided label may carry (None stands for a label without bytes).  The ghost is
+            the value check_label_re_use returned; later matches refine the local, not the ghost, so it may list several kinds"""
+            return {(fs[0][2] if fs and fs[0][0] == 'arr' else None) for _, fs in d[1]}
         for w, rv in a.rets:
             alts = ret_alts(rv) or []
             fin = c09.self_fields(a, w)
@@ -54,38 +73,52 @@ def run(ck):
                     ck.finding('C04.R2', ENC + wname, 'ok-path-without-clru', f"{wname}: a successful path does not call check_label_re_use exactly once")
         # R4: what is written is what was decided
         for r in a.events('call'):
-            if r.data[1] != GEN_HDR or r.site[0] != ENC + wname:
+            if r.data[1] != GEN_HDR:
                 continue
             n_hdr += 1
             W = r.data[5]
             cargs = r.data[3]
             ltv = a.I.read(W, cargs[1][1]) if cargs[1][0] == 'ref' else None
-            lab = W.mem.get(label_root)
-            if ltv is None or lab is None or ltv[0] != 'enum' or lab[0] != 'enum' or len(ltv[1]) != 1 or len(lab[1]) != 1:
-                ck.finding('C04.R4', ENC + wname, 'decided-label-unknown', f"{wname}: label / label type at the header call not single variants", r.site)
+            lab = ghost(W, '~decided')
+            if ltv is None or lab is None or ltv[0] != 'enum' or lab[0] != 'enum' or len(ltv[1]) != 1:
+                ck.finding('C04.R4', ENC + wname, 'decided-label-unknown', f"{wname}: label / label type at the header call not known", r.site)
                 continue
-            if f.variant_name(LT, ltv[1][0][0]) != f.variant_name('label::Label', lab[1][0][0]):
+            if f.variant_name(LT, ltv[1][0][0]) not in {f.variant_name('label::Label', v) for v, _ in lab[1]}:
                 ck.finding('C04.R4', ENC + wname, 'header-type-mismatch', f"{wname}: label type bits are not the type of the label returned by check_label_re_use", r.site)
         nlabw = 0
         for r in a.events('write'):
             _, base, start, ln, src = r.data[:5]
-            if r.site[0] != ENC + wname or src[0] != 'arr' or len(src) < 5:
+            if src[0] != 'arr' or len(src) < 5:
                 continue
-            b = src[4]
-            if b.root[0] == 'L' and b.root[2] in a.body.local_names and a.body.local_names[b.root[2]] in ('label',):
-                nlabw += 1
-            elif b.root[0] == 'L' and b.root[1] == root_fid and a.body.local_names.get(b.root[2]) == 'metadata':
-                ck.finding('C04.R4', ENC + wname, 'writes-undecided-label', f"{wname}: writes the bytes of metadata.label instead of the label returned by check_label_re_use", r.site)
+            if src[1] not in md_contents:
+                continue                   # not label bytes
+            nlabw += 1
+            D = decided(r.data[6])
+            if D is None or D[0] != 'enum' or src[1] not in payloads(D) or not r.data[6].store.entails_eq(src[2], Lin.c(0)):
+                ck.finding('C04.R4', ENC + wname, 'writes-undecided-label', f"{wname}: writes label bytes that are not the bytes of the label returned by check_label_re_use", r.site)
         ck.rule(f'C04.R4 label byte writes taken from the decided label in {wname}', nlabw, 1)
         # the CRC label argument is the decided label too
         for r in a.events('call'):
-            if r.data[2] != 'crc::CrcCalculator::calculate_crc32' or r.site[0] != ENC + wname:
+            if r.data[2] != 'crc::CrcCalculator::calculate_crc32':
                 continue
             lab_arg = r.data[3][4]
-            if lab_arg[0] != 'slice' or lab_arg[1].root != label_root:
-                # empty label (&[]) is what get_bytes returns for ReUse/Broadcast: a constant
-                if not (lab_arg[0] == 'slice' and lab_arg[1].root[0] == 'K'):
-                    ck.finding('C04.R4', ENC + wname, 'crc-label-undecided', f"{wname}: CRC label argument is not the bytes of the decided label", r.site)
+            W = r.data[5]
+            D = decided(W)
+            ok = False
+            if lab_arg[0] == 'slice' and D is not None and D[0] == 'enum':
+                want = payloads(D)
+                if lab_arg[1].root[0] == 'K':
+                    # the empty constant get_bytes returns for ReUse / Broadcast
+                    ok = None in want and W.store.entails_eq(lab_arg[3], Lin.c(0))
+                else:
+                    try:
+                        obj = a.I.read(W, lab_arg[1])
+                    except AnalysisError:
+                        obj = None
+                    ok = obj is not None and obj[0] == 'arr' and obj[2] in want and \
+                        W.store.entails_eq(lab_arg[2], Lin.c(0)) and W.store.entails_eq(lab_arg[3], Lin.c(obj[1]))
+            if not ok:
+                ck.finding('C04.R4', ENC + wname, 'crc-label-undecided', f"{wname}: CRC label argument is not the bytes of the decided label", r.site)
     ck.rule('C04.R1 Err returns of encap/encap_ext', n_err, 6)
     ck.rule('C04.R2 Ok returns of encap/encap_ext (memory untouched after check_label_re_use)', n_ok, 8)
     ck.rule('C04.R4 header calls of encap/encap_ext', n_hdr, 8)
@@ -202,6 +235,8 @@ def run(ck):
         if short(fn) not in allowed and f.body(fn).public:
             ck.finding('C04.R6', fn, 'writes:last_label', f"public function {short(fn)} writes Decapsulator.last_label; not one of the reviewed entry points")
     ck.rule('C04.R6 writers of Decapsulator.last_label', len(writers), 5)
+    # R3: substitution guard (shared with C15.R3 / R4)
+    c15.substitution_guard(ck, 'C04.R3')
     # R8: encap_frag / the previews (and any other public function) do not touch the sender's label memory
     ew = c15.who_writes(f, 'gse_encap::Encapsulator', ['last_label', 're_current_consecutive'])
     e_allowed = {'new', 'reset_last_label', 'disable_re_use_label', 'enable_re_use_label', 'enable_re_use_label_with_max_consecutive', 'check_label_re_use', 'encap', 'encap_ext'}
